@@ -432,6 +432,33 @@ void h_many(void) {
   VERIF_CANARY();
 }
 
+/* ---- re-entrancy of create_join_many: a user function may itself make a bulk call (nested parallel loops), and two
+   threads may be inside bulk calls at the same time.  The function slot `many` hands to the engine is read by the
+   items while they run, i.e. any time before the call returns: it must be private to the invocation.  Model: the engine
+   is a stub with a body in which "an item" of the outer call makes another bulk call with a different function; the
+   outer call's slot must still hold the outer function afterwards. */
+int g_re_depth, g_re_calls;
+int verif_various_reent(myth_thread_t * ids, myth_thread_attr_t * attrs, myth_func_t * funcs, void * args, void * results,
+                        size_t id_stride, size_t attr_stride, size_t func_stride, size_t arg_stride, size_t result_stride, long nthreads) {
+  myth_func_t mine = g_re_depth == 0 ? F_watch : F_other;
+  if (g_re_calls < 3) g_re_calls++;
+  __CPROVER_assert(func_stride == 0 && funcs != 0 && *funcs == mine, "many: hands the engine one shared slot that holds the function of THIS call");
+  if (g_re_depth == 0) {
+    g_re_depth = 1;
+    (void)myth_create_join_many_ex_body(0, 0, F_other, args, 0, 0, 0, 1, 0, 1);      /* an item of the outer call runs a bulk call of its own */
+    g_re_depth = 0;
+    __CPROVER_assert(*funcs == mine, "many: the function slot is private to the invocation: it still holds this call's function after one of its items has made another bulk call");
+  }
+  return 0;
+}
+int (*keep_various_reent)(myth_thread_t *, myth_thread_attr_t *, myth_func_t *, void *, void *, size_t, size_t, size_t, size_t, size_t, long) = verif_various_reent;
+void h_many_reentrant(void) {
+  g_re_depth = 0; g_re_calls = 0;
+  int r = myth_create_join_many_ex_body(0, 0, F_watch, (void *)ARGS, 0, 0, 0, 1, 0, 2);
+  __CPROVER_assert(r == 0 && g_re_calls == 2, "many (re-entrancy model): the outer and the nested call each reach the engine once");
+  VERIF_CANARY();
+}
+
 /* the arithmetic lemma behind REL, over the mathematical integers (SMT back end) */
 __CPROVER_integer nondet_integer(void);
 void h_lemma_mono(void) {
